@@ -10,4 +10,3 @@ func runFile(sc *Scenario, res *Result, keepLog bool)   {}
 func genStream(seed uint64, faulty bool) *Scenario { return nil }
 func genFile(seed uint64, faulty bool) *Scenario   { return nil }
 func genEz(seed uint64, faulty bool) *Scenario     { return nil }
-func genWrap(seed uint64, faulty bool) *Scenario   { return nil }
